@@ -16,8 +16,12 @@ Reads (relative to <repo>/src):
                                                      processLevel dispatch
   library/log/logging.cpp                            limit of findCreateLog
 
-A construct that does not have the expected shape raises TranslateError (the tie is reported broken);
-nothing is guessed.  Hashes of the hand-modelled function bodies are reported for drift detection.
+The source is not matched as text: logdefs_cxx.py indexes the declarations of the files above (a function is found
+wherever it is defined, members are identified by their type and use, aliases and named constants are resolved)
+and logdefs_norm.py evaluates each anchored function body to a normal form in which the spelling of locals,
+parameters and private members, the control-flow idiom, helper functions and cast / null idioms do not matter.
+A construct that cannot be followed raises TranslateError (the tie is reported broken); nothing is guessed.
+Hashes of the normal forms of the hand-modelled functions are reported for drift detection.
 """
 import hashlib
 import os
@@ -25,24 +29,22 @@ import re
 import sys
 
 
-class TranslateError(Exception):
-    pass
+sys.path.insert(0, os.path.dirname(os.path.abspath(__file__)))
+from logdefs_cxx import TranslateError, Index, text_of, is_p, match_angle   # noqa: E402
+from logdefs_norm import Norm, show, walk                                    # noqa: E402
 
 
-def strip_comments(src):
-    src = re.sub(r"/\*.*?\*/", " ", src, flags=re.S)
-    out = []
-    for line in src.split("\n"):
-        # no string literal in these files contains '//'
-        i = line.find("//")
-        out.append(line if i < 0 else line[:i])
-    return "\n".join(out)
+# files that are indexed: whole directories of the filter classes, the named files of the routing
+INDEX_DIRS = ["celma/log/filter", "celma/log/filter/detail", "library/log/filter", "library/log/filter/detail"]
+INDEX_FILES = ["celma/log/detail/log_defs.hpp", "celma/log/detail/log_msg.hpp", "celma/log/detail/helper_function.hpp",
+               "celma/log/detail/log.hpp", "celma/log/detail/i_log_dest.hpp", "celma/log/logging.hpp",
+               "library/log/logging.cpp", "library/log/detail/log.cpp", "library/log/detail/i_log_dest.cpp"]
 
 
 def read(repo, rel):
     p = os.path.join(repo, "src", rel)
     try:
-        return strip_comments(open(p, encoding="utf-8", errors="replace").read())
+        return open(p, encoding="utf-8", errors="replace").read()
     except OSError as e:
         raise TranslateError("cannot read %s: %s" % (rel, e))
 
@@ -51,287 +53,501 @@ def norm(s):
     return re.sub(r"\s+", " ", s).strip()
 
 
-def body_after(src, header_rx, what):
-    """text of the brace-balanced block following the first match of header_rx"""
-    m = re.search(header_rx, src, flags=re.S)
-    if not m:
-        raise TranslateError("%s: not found" % what)
-    i = src.find("{", m.end() - 1 if src[m.end() - 1] == "{" else m.end())
-    if i < 0:
-        raise TranslateError("%s: no body" % what)
-    depth = 0
-    for j in range(i, len(src)):
-        if src[j] == "{":
-            depth += 1
-        elif src[j] == "}":
-            depth -= 1
-            if depth == 0:
-                return src[i + 1:j]
-    raise TranslateError("%s: unbalanced braces" % what)
+_CACHE = {}
 
 
-def enum_of(src, name):
-    body = body_after(src, r"enum\s+class\s+%s\b[^{;]*\{" % name, "enum " + name)
-    names = []
-    for part in body.split(","):
-        part = part.strip()
-        if not part:
-            continue
-        if "=" in part:
-            raise TranslateError("enum %s: explicit enumerator value `%s` not understood" % (name, norm(part)))
-        if not re.fullmatch(r"[A-Za-z_]\w*", part):
-            raise TranslateError("enum %s: enumerator `%s` not understood" % (name, norm(part)))
-        names.append(part)
-    if not names:
-        raise TranslateError("enum %s: empty" % name)
-    return names
+def load(repo):
+    """(Index, Norm) of the current source; re-read when a file changed"""
+    rels = list(INDEX_FILES)
+    for d in INDEX_DIRS:
+        full = os.path.join(repo, "src", d)
+        try:
+            names = sorted(os.listdir(full))
+        except OSError as e:
+            raise TranslateError("cannot list %s: %s" % (d, e))
+        rels += [d + "/" + n for n in names if n.endswith((".hpp", ".cpp", ".h"))]
+    stamp = []
+    for rel in rels:
+        try:
+            st = os.stat(os.path.join(repo, "src", rel))
+            stamp.append((rel, st.st_mtime_ns, st.st_size))
+        except OSError as e:
+            raise TranslateError("cannot read %s: %s" % (rel, e))
+    key = os.path.abspath(repo)
+    if key in _CACHE and _CACHE[key][0] == stamp:
+        return _CACHE[key][1], _CACHE[key][2]
+    ix = Index()
+    for rel in rels:
+        ix.add_file(rel, read(repo, rel))
+    nm = Norm(ix)
+    _CACHE[key] = (stamp, ix, nm)
+    return ix, nm
 
 
-def text_switch(src, func, enum, names):
-    """[(index, text)] in source order, default text"""
-    body = body_after(src, r"\b%s\s*\([^)]*\)\s*\{" % func, func)
-    sw = body_after(body, r"switch\s*\([^)]*\)\s*\{", func + " switch")
-    toks = re.findall(r'case\s+%s::(\w+)\s*:|(default)\s*:|return\s+"((?:[^"\\]|\\.)*)"\s*;' % enum, sw)
-    rest = re.sub(r'case\s+%s::\w+\s*:|default\s*:|return\s+"(?:[^"\\]|\\.)*"\s*;' % enum, "", sw)
-    if norm(rest):
-        raise TranslateError("%s: switch contains something else than case/default/return \"...\": %r" % (func, norm(rest)[:80]))
-    cases, default, pending = [], None, []
-    for c, d, txt in toks:
-        if c:
-            if c not in names:
-                raise TranslateError("%s: unknown enumerator %s" % (func, c))
-            pending.append(names.index(c))
-        elif d:
-            pending.append("default")
-        else:
-            if "\\" in txt:
-                raise TranslateError("%s: escape sequence in text %r" % (func, txt))
-            for p in pending:
-                if p == "default":
-                    default = txt
-                else:
-                    cases.append((p, txt))
-            pending = []
-    if pending:
-        raise TranslateError("%s: labels without return" % func)
-    if default is None:
-        raise TranslateError("%s: no default label" % func)
+# --------------------------------------------------------------------------------------------------
+# small tree helpers
+
+TRUE, FALSE = ("ret", ("bool", True)), ("ret", ("bool", False))
+
+
+def bool_leaf(t):
+    return t == TRUE or t == FALSE
+
+
+def enum_names(ix, name):
+    if name not in ix.enums:
+        raise TranslateError("enum %s: not found" % name)
+    vals = ix.enums[name]
+    for k, (n, v) in enumerate(vals):
+        if v != k:
+            raise TranslateError("enum %s: explicit enumerator value `%s = %d` not understood" % (name, n, v))
+    return [n for n, _ in vals]
+
+
+def enumerator(e, enum, names, what):
+    """index of the enumerator named by the expression `Enum::x`"""
+    if e[0] == "id" and e[1].startswith(enum + "::") and e[1][len(enum) + 2:] in names:
+        return names.index(e[1][len(enum) + 2:])
+    raise TranslateError("%s: `%s` is not an enumerator of %s" % (what, show(e), enum))
+
+
+def enum_of(ix, name):
+    return enum_names(ix, name)
+
+
+def text_switch(ix, nm, func, enum, names):
+    """[(index, text)] in source order, default text — from a switch or an equivalent chain of ifs"""
+    f = ix.func(None, func, nparams=1)
+    t = nm.beh(f)
+    cases = []
+    while t[0] == "ite":
+        c = t[1]
+        if not (c[0] == "bin" and c[1] == "==" and c[2] == ("id", "$p0")):
+            raise TranslateError("%s: condition `%s` not understood" % (func, show(c)))
+        i = enumerator(c[3], enum, names, func)
+        if not (t[2][0] == "ret" and t[2][1][0] == "str"):
+            raise TranslateError("%s: the branch for %s does not return a text: %s" % (func, show(c[3]), show(t[2])[:80]))
+        cases.append((i, t[2][1][1]))
+        t = t[3]
+    if not (t[0] == "ret" and t[1][0] == "str"):
+        raise TranslateError("%s: no default text (found `%s`)" % (func, show(t)[:80]))
+    default = t[1][1]
+    for _, txt in cases + [(None, default)]:
+        if "\\" in txt:
+            raise TranslateError("%s: escape sequence in text %r" % (func, txt))
     if len(set(i for i, _ in cases)) != len(cases):
         raise TranslateError("%s: duplicate case label" % func)
     return cases, default
 
 
-OPS = {"<": "lt", "<=": "le", ">": "gt", ">=": "ge", "==": "eq", "!=": "ne"}
+def text_loop(ix, nm, func, enum, names):
+    f = ix.func(None, func, nparams=1)
+    t = nm.beh(f)
+    what = func
+    if not (t[0] == "loop" and t[1][0] == "range"):
+        raise TranslateError("%s: loop header not understood: %s" % (what, show(t)[:120]))
+    _, var, start, op, bound = t[1]
+    lo = nm.const_eval(start, what + " loop start")
+    hi = nm.const_eval(bound, what + " loop bound")
+    if lo < 0 or hi < 0:
+        raise TranslateError("%s: negative loop bound" % what)
+    body, after = t[2], t[3]
+    v = ("id", var)
+    ok = body[0] == "ite" and body[2] == ("cont", "L0") and body[3] == ("ret", v)
+    c = body[1] if ok else None
+    if not (ok and c[0] == "call" and c[1][0] == "id" and c[1][1] in ("strcasecmp", "strcmp") and len(c[2]) == 2):
+        raise TranslateError("%s: comparison in the loop not understood: %s" % (what, show(body)[:160]))
+    a, b = c[2]
+    if b[0] == "call":
+        a, b = b, a
+    if not (b == ("id", "$p0") and a[0] == "call" and a[1][0] == "id" and a[2] == [v]):
+        raise TranslateError("%s: operands of the comparison not understood: %s" % (what, show(c)))
+    if not after[0] == "ret":
+        raise TranslateError("%s: fallback return not understood" % what)
+    fb = enumerator(after[1], enum, names, what + " fallback")
+    return {"from": lo, "op": {"<": "lt", "<=": "le"}[op], "bound": hi, "nocase": c[1][1] == "strcasecmp",
+            "via": a[1][1], "fallback": fb}
+
+
+def relation(t, what):
+    """(op name, left, right) of a bool function whose body is one comparison"""
+    if t[0] != "ite" or not bool_leaf(t[2]) or not bool_leaf(t[3]) or t[2] == t[3]:
+        raise TranslateError("%s: body `%s` not understood" % (what, show(t)[:160]))
+    c = t[1]
+    if not (c[0] == "bin" and c[1] in ("<", "<=", "==")):
+        raise TranslateError("%s: condition `%s` not understood" % (what, show(c)))
+    op = {"<": "lt", "<=": "le", "==": "eq"}[c[1]]
+    if t[2] == FALSE:
+        op = {"lt": "ge", "le": "gt", "eq": "ne"}[op]
+    return op, c[2], c[3]
+
+
 FLIP = {"lt": "gt", "le": "ge", "gt": "lt", "ge": "le", "eq": "eq", "ne": "ne"}
 
 
-def text_loop(src, func, enum, names):
-    body = body_after(src, r"\b%s\s*\([^)]*\)\s*\{" % func, func)
-    m = re.search(r"for\s*\(\s*int\s+i\s*=\s*(\d+)\s*;\s*i\s*(<=|<)\s*static_cast\s*<\s*int\s*>\s*\(\s*%s::(\w+)\s*\)\s*"
-                  r"(?:([+-])\s*(\d+)\s*)?;\s*(?:i\+\+|\+\+i)\s*\)" % enum, body)
-    if not m:
-        raise TranslateError("%s: loop header not understood" % func)
-    if m.group(3) not in names:
-        raise TranslateError("%s: unknown enumerator %s" % (func, m.group(3)))
-    bound = names.index(m.group(3))
-    if m.group(4):
-        bound = bound + int(m.group(5)) if m.group(4) == "+" else bound - int(m.group(5))
-        if bound < 0:
-            raise TranslateError("%s: negative loop bound" % func)
-    c = re.search(r"if\s*\(\s*(?:::)?(strcasecmp|strcmp)\s*\(\s*(\w+)\s*\(\s*static_cast\s*<\s*%s\s*>\s*\(\s*i\s*\)\s*\)\s*,"
-                  r"\s*\w+\s*\)\s*==\s*0\s*\)\s*return\s+static_cast\s*<\s*%s\s*>\s*\(\s*i\s*\)\s*;" % (enum, enum), body)
-    if not c:
-        raise TranslateError("%s: comparison in the loop not understood" % func)
-    fb = re.search(r"\}\s*return\s+%s::(\w+)\s*;\s*$" % enum, body.strip())
-    if not fb or fb.group(1) not in names:
-        raise TranslateError("%s: fallback return not understood" % func)
-    return {"from": int(m.group(1)), "op": OPS[m.group(2)], "bound": bound, "nocase": c.group(1) == "strcasecmp",
-            "via": c.group(2), "fallback": names.index(fb.group(1))}
+def data_members(ix, nm, cls, pred, what, static=None):
+    out = [m for m in ix.members(cls) if (static is None or m.static == static) and pred(nm.canon_type(text_of(m.type), cls))]
+    if len(out) != 1:
+        raise TranslateError("%s: %s (%d candidates)" % (cls, what, len(out)))
+    return out[0]
 
 
-def level_filter(repo, rel, cls, member):
-    src = read(repo, rel)
-    pl = norm(body_after(src, r"\b%s::processLevel\s*\([^)]*\)\s*const\s*\{" % cls, cls + "::processLevel"))
-    m = re.fullmatch(r"return\s+(\w+)\s*(<=|>=|==|!=|<|>)\s*(\w+)\s*;", pl)
-    if not m:
-        raise TranslateError("%s::processLevel: body `%s` not understood" % (cls, pl))
-    a, op, b = m.group(1), OPS[m.group(2)], m.group(3)
-    if a == "l" and b == member:
+def base_filter_type(ix, nm, f, what):
+    for name, args in f.inits:
+        if name == "IFilter":
+            e = nm.nx(nm.parse_expr_tokens(args, what), {}, _ctx(nm, f))
+            if e[0] == "id" and e[1].startswith("FilterTypes::"):
+                return e[1][len("FilterTypes::"):]
+    raise TranslateError("%s: base class initialiser IFilter( FilterTypes::...) not understood" % what)
+
+
+def _ctx(nm, f):
+    from logdefs_norm import Ctx
+    return Ctx(f, frozenset(), 0)
+
+
+def level_filter(ix, nm, cls):
+    mem = data_members(ix, nm, cls, lambda ty: ty == "LogLevel", "level member not found", static=False)
+    m = mem.name
+    ctor = ix.func(cls, cls, nparams=1)
+    ftype = base_filter_type(ix, nm, ctor, cls + " constructor")
+    body = nm.beh(ctor)
+    pname = ctor.params[0][1]
+    from_init = [a for n, a in ctor.inits if n == m]
+    if from_init and len(from_init) == 1 and pname is not None and [x[1] for x in from_init[0]] == [pname] and body == ("end",):
+        pass
+    elif not from_init and body == ("seq", ("assign", "=", ("id", m), ("id", "$p0")), ("end",)):
+        pass
+    else:
+        raise TranslateError("%s: constructor not understood" % cls)
+    if any(n not in (m, "IFilter") for n, _ in ctor.inits):
+        raise TranslateError("%s: constructor not understood" % cls)
+    pl = ix.func(cls, "processLevel", nparams=1)
+    op, a, b = relation(nm.beh(pl), cls + "::processLevel")
+    if a == ("id", "$p0") and b == ("id", m):
         pop = op
-    elif b == "l" and a == member:
+    elif b == ("id", "$p0") and a == ("id", m):
         pop = FLIP[op]
     else:
-        raise TranslateError("%s::processLevel: operands `%s`, `%s` not understood" % (cls, a, b))
-    ps = norm(body_after(src, r"\b%s::pass\s*\([^)]*\)\s*const\s*\{" % cls, cls + "::pass"))
-    if re.fullmatch(r"return\s+processLevel\s*\(\s*msg\.getLevel\s*\(\s*\)\s*\)\s*;", ps):
-        sop = pop
+        raise TranslateError("%s::processLevel: operands `%s`, `%s` not understood" % (cls, show(a), show(b)))
+    ps = ix.func(cls, "pass", nparams=1)
+    op, a, b = relation(nm.beh(ps), cls + "::pass")
+    lvl = ("call", ("member", ("id", "$p0"), "getLevel"), [])
+    if a == lvl and b == ("id", m):
+        sop = op
+    elif b == lvl and a == ("id", m):
+        sop = FLIP[op]
     else:
-        m = re.fullmatch(r"return\s+(msg\.getLevel\s*\(\s*\)|\w+)\s*(<=|>=|==|!=|<|>)\s*(msg\.getLevel\s*\(\s*\)|\w+)\s*;", ps)
-        if not m:
-            raise TranslateError("%s::pass: body `%s` not understood" % (cls, ps))
-        a, op, b = m.group(1), OPS[m.group(2)], m.group(3)
-        if a.startswith("msg.") and b == member:
-            sop = op
-        elif b.startswith("msg.") and a == member:
-            sop = FLIP[op]
-        else:
-            raise TranslateError("%s::pass: operands not understood" % cls)
-    ctor = norm(body_after(src, r"\b%s::%s\s*\([^)]*\)\s*:[^{]*\{" % (cls, cls), cls + " constructor"))
-    init = re.search(r"%s::%s\s*\(\s*LogLevel\s+(\w+)\s*\)\s*:\s*IFilter\s*\(\s*FilterTypes::(\w+)\s*\)\s*,\s*%s\s*\(\s*(\w+)\s*\)" % (cls, cls, member), src)
-    if not init or init.group(1) != init.group(3) or ctor:
-        raise TranslateError("%s: constructor not understood" % cls)
-    return pop, sop, init.group(2)
+        raise TranslateError("%s::pass: operands `%s`, `%s` not understood" % (cls, show(a), show(b)))
+    return pop, sop, ftype
 
 
-def bitset_size(repo, classes):
-    src = read(repo, "celma/log/filter/detail/log_filter_classes.hpp")
-    m = re.search(r"std::bitset\s*<(.*?)>\s*mClassSelection\s*;", src, flags=re.S)
-    if not m:
-        raise TranslateError("LogFilterClasses: bitset member not found")
-    expr = norm(m.group(1))
-    e = re.fullmatch(r"static_cast\s*<\s*(?:std::)?size_t\s*>\s*\(\s*LogClass::(\w+)\s*\)\s*(?:([+-])\s*(\d+))?", expr)
-    if e:
-        if e.group(1) not in classes:
-            raise TranslateError("bitset size: unknown enumerator " + e.group(1))
-        n = classes.index(e.group(1))
-        if e.group(2):
-            n = n + int(e.group(3)) if e.group(2) == "+" else n - int(e.group(3))
-    elif re.fullmatch(r"\d+", expr):
-        n = int(expr)
-    else:
-        raise TranslateError("bitset size expression `%s` not understood" % expr)
+def bitset_size(ix, nm, classes):
+    cls = "LogFilterClasses"
+    mem = data_members(ix, nm, cls, lambda ty: ty.startswith("std::bitset <"), "bitset member not found", static=False)
+    ty = ix.resolve_type(mem.type, cls)
+    k = next(i for i, t in enumerate(ty) if is_p(t, "<"))
+    j = match_angle(ty, k)
+    if j != len(ty) - 1:
+        raise TranslateError("LogFilterClasses: bitset type `%s` not understood" % text_of(ty))
+    expr_toks = ty[k + 1:j]
+    f0 = ix.func(cls, "pass", nparams=1)
+    e = nm.nx(nm.parse_expr_tokens(expr_toks, "bitset size"), {}, _ctx(nm, f0))
+    n = nm.const_eval(e, "bitset size expression `%s`" % text_of(expr_toks))
     if n < 0:
         raise TranslateError("bitset size negative")
-    ps = norm(body_after(src, r"\bLogFilterClasses::pass\s*\([^)]*\)\s*const\s*\{", "LogFilterClasses::pass"))
-    if re.fullmatch(r"return\s+mClassSelection\s*\[\s*static_cast\s*<\s*size_t\s*>\s*\(\s*msg\.getClass\s*\(\s*\)\s*\)\s*\]\s*;", ps):
+    t = nm.beh(f0)
+    if not (t[0] == "ite" and t[2] == TRUE and t[3] == FALSE):
+        raise TranslateError("LogFilterClasses::pass: body `%s` not understood" % show(t)[:160])
+    c = t[1]
+    cl = ("call", ("member", ("id", "$p0"), "getClass"), [])
+    M = ("id", mem.name)
+    if c == ("index", M, cl):
         checked = False
-    elif re.fullmatch(r"return\s+mClassSelection\s*\.\s*test\s*\(\s*static_cast\s*<\s*size_t\s*>\s*\(\s*msg\.getClass\s*\(\s*\)\s*\)\s*\)\s*;", ps):
+    elif c == ("call", ("member", M, "test"), [cl]):
         checked = True
     else:
-        raise TranslateError("LogFilterClasses::pass: body `%s` not understood" % ps)
-    return n, expr, checked
+        raise TranslateError("LogFilterClasses::pass: body `%s` not understood" % show(t)[:160])
+    return n, show(e), checked, mem.name
 
 
-def classes_ctor(repo):
-    src = read(repo, "library/log/filter/detail/log_filter_classes.cpp")
-    body = norm(body_after(src, r"LogFilterClasses::LogFilterClasses\s*\([^)]*\)\s*:[^{]*\{", "LogFilterClasses constructor"))
-    m = re.search(r"common::Tokenizer\s+\w+\s*\(\s*class_list\s*,\s*'(.)'\s*\)\s*;", body)
-    if not m:
-        raise TranslateError("LogFilterClasses constructor: tokenizer not understood")
-    sep = m.group(1)
-    if not re.search(r"log_class\s*=\s*log::detail::text2logClass\s*\(\s*it\.c_str\s*\(\s*\)\s*\)\s*;", body):
-        raise TranslateError("LogFilterClasses constructor: text2logClass call not found")
-    rej = re.search(r"if\s*\(\s*log_class\s*==\s*LogClass::(\w+)\s*\)\s*throw\s+CELMA_RuntimeError", body)
-    if not re.search(r"mClassSelection\s*\.\s*set\s*\(\s*static_cast\s*<\s*size_t\s*>\s*\(\s*log_class\s*\)\s*\)\s*;", body):
-        raise TranslateError("LogFilterClasses constructor: set( class) not found")
-    empty = re.search(r"if\s*\(\s*mClassSelection\s*\.\s*none\s*\(\s*\)\s*\)\s*throw\s+CELMA_RuntimeError", body)
-    return sep, (rej.group(1) if rej else None), bool(empty)
+def classes_ctor(ix, nm, member):
+    cls = "LogFilterClasses"
+    what = "LogFilterClasses constructor"
+    f = ix.func(cls, cls, nparams=1)
+    if base_filter_type(ix, nm, f, what) != "classes":
+        raise TranslateError(what + ": does not register FilterTypes::classes")
+    for n, a in f.inits:
+        if n == "IFilter":
+            continue
+        if n != member or a:
+            raise TranslateError(what + ": initialiser of %s not understood" % n)
+    t = nm.beh(f)
+    M = ("id", member)
+    if not (t[0] == "loop" and t[1][0] == "each"):
+        raise TranslateError(what + ": tokenizer loop not understood: " + show(t)[:160])
+    var, cont = ("id", t[1][1]), t[1][2]
+    if not (cont[0] == "construct" and cont[1] == "Tokenizer" and len(cont[2]) == 2 and cont[2][0] == ("id", "$p0")
+            and cont[2][1][0] == "chr" and len(cont[2][1][1]) == 1):
+        raise TranslateError(what + ": tokenizer not understood: " + show(cont))
+    sep = cont[2][1][1]
+    call = ("call", ("id", "text2logClass"), [("call", ("member", var, "c_str"), [])])
+    body = t[2]
+    rejected = None
+    if body[0] == "ite" and body[2] == ("throw", "CELMA_RuntimeError"):
+        c = body[1]
+        if not (c[0] == "bin" and c[1] == "==" and c[2] == call and c[3][0] == "id" and c[3][1].startswith("LogClass::")):
+            raise TranslateError(what + ": rejection test `%s` not understood" % show(c))
+        rejected = c[3][1][len("LogClass::"):]
+        body = body[3]
+    setcall = ("seq", ("call", ("member", M, "set"), [call]), ("cont", "L0"))
+    if body != setcall:
+        if mentions_call(body, "text2logClass"):
+            raise TranslateError(what + ": set( class) not found: " + show(body)[:200])
+        raise TranslateError(what + ": text2logClass call not found: " + show(body)[:200])
+    after = t[3]
+    if after == ("end",):
+        empty = False
+    elif after == ("ite", ("call", ("member", M, "none"), []), ("throw", "CELMA_RuntimeError"), ("end",)):
+        empty = True
+    else:
+        raise TranslateError(what + ": code after the loop not understood: " + show(after)[:200])
+    return sep, rejected, empty
 
 
-def policies(repo):
-    names = enum_of(read(repo, "celma/log/filter/detail/duplicate_policy.hpp"), "DuplicatePolicy")
-    fac = read(repo, "library/log/filter/detail/duplicate_policy_factory.cpp")
-    body = body_after(fac, r"DuplicatePolicyFactory::createPolicy\s*\([^)]*\)\s*\{", "createPolicy")
-    made = dict(re.findall(r"case\s+DuplicatePolicy::(\w+)\s*:\s*return\s+new\s+(\w+)\s*;", body))
+def mentions_call(t, name):
+    return any(isinstance(x, tuple) and len(x) == 3 and x[0] == "call" and x[1] == ("id", name) for x in walk(t))
+
+
+def policies(ix, nm):
+    names = enum_names(ix, "DuplicatePolicy")
+    fac = ix.func("DuplicatePolicyFactory", "createPolicy", nparams=1)
+    t = nm.beh(fac)
+    made = {}
+    while t[0] == "ite":
+        c = t[1]
+        if not (c[0] == "bin" and c[1] == "==" and c[2] == ("id", "$p0")):
+            raise TranslateError("createPolicy: condition `%s` not understood" % show(c))
+        i = enumerator(c[3], "DuplicatePolicy", names, "createPolicy")
+        r = t[2]
+        if not (r[0] == "ret" and r[1][0] == "new" and not r[1][2]):
+            raise TranslateError("createPolicy: branch for %s not understood: %s" % (names[i], show(r)[:80]))
+        made.setdefault(names[i], r[1][1])
+        t = t[3]
+    if t[0] != "throw":
+        raise TranslateError("createPolicy: default branch `%s` not understood" % show(t)[:80])
     res = {}
     for n in names:
         if n not in made:
             raise TranslateError("createPolicy: no case for DuplicatePolicy::" + n)
         cls = made[n]
-        stem = re.sub(r"(?<!^)([A-Z])", r"_\1", cls).lower()          # DuplicatePolicyIgnore -> duplicate_policy_ignore
-        src = read(repo, "celma/log/filter/detail/%s.hpp" % stem)
-        cbody = body_after(src, r"class\s+%s\b[^{;]*\{" % cls, "class " + cls)
-        acc = norm(body_after(cbody, r"\bacceptNew\s*\(\s*\)\s*const[^{;]*\{", cls + "::acceptNew"))
-        if re.fullmatch(r"return\s+false\s*;", acc):
+        acc = nm.beh(ix.func(cls, "acceptNew", nparams=0))
+        if acc == FALSE:
             res[n] = "keep"
-        elif re.fullmatch(r"return\s+true\s*;", acc):
+        elif acc == TRUE:
             res[n] = "replace"
-        elif re.fullmatch(r"throw\s+CELMA_RuntimeError\s*\(.*\)\s*;", acc):
+        elif acc == ("throw", "CELMA_RuntimeError"):
             res[n] = "throws"
         else:
-            raise TranslateError("%s::acceptNew: body `%s` not understood" % (cls, acc))
-        pol = norm(body_after(cbody, r"\bpolicy\s*\(\s*\)\s*const[^{;]*\{", cls + "::policy"))
-        m = re.fullmatch(r"return\s+DuplicatePolicy::(\w+)\s*;", pol)
-        if not m or m.group(1) != n:
+            raise TranslateError("%s::acceptNew: body `%s` not understood" % (cls, show(acc)[:120]))
+        pol = nm.beh(ix.func(cls, "policy", nparams=0))
+        if pol != ("ret", ("id", "DuplicatePolicy::" + n)):
             raise TranslateError("%s::policy() does not return DuplicatePolicy::%s" % (cls, n))
     return names, res
 
 
-def filters_cpp(repo, pol_names):
-    src = read(repo, "library/log/filter/filters.cpp")
-    ctor = norm(body_after(src, r"Filters::Filters\s*\(\s*\)\s*:[^{]*\{", "Filters constructor"))
-    m = re.fullmatch(r"(if\s*\(\s*mpDuplicatePolicy(?:\.get\s*\(\s*\))?\s*==\s*nullptr\s*\)\s*)?"
-                     r"setDuplicatePolicy\s*\(\s*detail::DuplicatePolicy::(\w+)\s*\)\s*;", ctor)
-    if not m or m.group(2) not in pol_names:
-        raise TranslateError("Filters constructor: body `%s` not understood" % ctor)
-    resets = m.group(1) is None
-    default = m.group(2)
-    sdp = norm(body_after(src, r"void\s+Filters::setDuplicatePolicy\s*\([^)]*\)\s*\{", "setDuplicatePolicy"))
-    if not re.fullmatch(r"if\s*\(\s*\(\s*mpDuplicatePolicy\.get\s*\(\s*\)\s*==\s*nullptr\s*\)\s*\|\|\s*\(\s*mpDuplicatePolicy->policy\s*\(\s*\)"
-                        r"\s*!=\s*policy\s*\)\s*\)\s*mpDuplicatePolicy\.reset\s*\(\s*detail::DuplicatePolicyFactory::createPolicy\s*\(\s*policy\s*\)\s*\)\s*;", sdp):
-        raise TranslateError("setDuplicatePolicy: body `%s` not understood" % sdp)
-    csf = norm(body_after(src, r"void\s+Filters::checkSetFilter\s*\([^)]*\)\s*\{", "checkSetFilter"))
-    head = (r"for\s*\(\s*auto\s*&\s*it\s*:\s*mFilters\s*\)\s*\{\s*if\s*\(\s*it->filterType\s*\(\s*\)\s*==\s*filter_type\s*\)\s*\{\s*"
-            r"if\s*\(\s*mpDuplicatePolicy->acceptNew\s*\(\s*\)\s*\)\s*\{\s*")
-    tail = (r"\s*\}\s*if\s*\(\s*detail::IFilter::isLevelFilter\s*\(\s*filter_type\s*\)\s*\)\s*mpLevelFilter\s*=\s*it\s*;\s*return\s*;\s*\}\s*\}\s*"
-            r"mFilters\.push_back\s*\(\s*new\s+F\s*\(\s*filter_param\s*\)\s*\)\s*;\s*"
-            r"if\s*\(\s*detail::IFilter::isLevelFilter\s*\(\s*filter_type\s*\)\s*\)\s*mpLevelFilter\s*=\s*mFilters\.back\s*\(\s*\)\s*;")
-    del_first = r"delete\s+it\s*;\s*it\s*=\s*new\s+F\s*\(\s*filter_param\s*\)\s*;"
-    new_first = r"auto\s+(\w+)\s*=\s*new\s+F\s*\(\s*filter_param\s*\)\s*;\s*delete\s+it\s*;\s*it\s*=\s*(\w+)\s*;"
-    if re.fullmatch(head + del_first + tail, csf):
-        deletes_first = True
+REF_SET_POLICY = """
+   if ((M_policy.get() == nullptr) || (M_policy->policy() != policy))
+      M_policy.reset( DuplicatePolicyFactory::createPolicy( policy));
+"""
+REF_CHECK_SET_HEAD = """
+   for (auto & it : M_filters)
+   {
+      if (it->filterType() == filter_type)
+      {
+         if (M_policy->acceptNew())
+         {
+            %s
+         }
+         if (IFilter::isLevelFilter( filter_type))
+            M_level = it;
+         return;
+      }
+   }
+   M_filters.push_back( new F( filter_param));
+   if (IFilter::isLevelFilter( filter_type))
+      M_level = M_filters.back();
+"""
+REF_DELETE_FIRST = "delete it; it = new F( filter_param);"
+REF_NEW_FIRST = "auto n = new F( filter_param); delete it; it = n;"
+REF_PASS = """
+   for (auto & it : M_filters)
+   {
+      if (!it->passFilter( msg))
+         return false;
+   }
+   return true;
+"""
+
+KEEP = frozenset(["setDuplicatePolicy", "checkSetFilter", "pass", "processLevel", "maxLevel", "minLevel", "level", "classes"])
+
+
+def digest(t):
+    return hashlib.sha256(show(t).encode()).hexdigest()[:12]
+
+
+def filters_cpp(ix, nm, pol_names):
+    cls = "Filters"
+    m_filters = data_members(ix, nm, cls, lambda ty: re.fullmatch(r"std::vector < IFilter \* >", ty) is not None,
+                             "filter container member not found", static=False).name
+    m_level_mem = data_members(ix, nm, cls, lambda ty: ty == "IFilter *", "level filter pointer member not found", static=False)
+    m_level = m_level_mem.name
+    m_policy = data_members(ix, nm, cls, lambda ty: "IDuplicatePolicy" in ty, "duplicate policy member not found", static=True).name
+    roles = {m_filters: "M_filters", m_level: "M_level", m_policy: "M_policy"}
+
+    def beh(name, **kw):
+        return nm.beh(ix.func(cls, name, **kw), keep=KEEP, members=roles)
+
+    # constructor
+    cf = ix.func(cls, cls, nparams=0)
+    init_level = [a for n, a in cf.inits if n == m_level]
+    if init_level:
+        lv_init = init_level[0]
     else:
-        m = re.fullmatch(head + new_first + tail, csf)
-        if not m or m.group(1) != m.group(2):
-            raise TranslateError("checkSetFilter: body not understood: `%s`" % csf[:400])
+        lv_init = m_level_mem.init
+    if lv_init is None or [x[1] for x in lv_init] not in (["nullptr"], ["NULL"], ["0"], []):
+        raise TranslateError("Filters constructor: the level filter pointer is not initialised with nullptr")
+    ctor = nm.beh(cf, keep=KEEP, members=roles)
+    resets = None
+    t = ctor
+    if t[0] == "ite" and t[1] == ("id", "M_policy") and t[2] == ("end",):
+        resets = False
+        t = t[3]
+    else:
+        resets = True
+    if not (t[0] == "seq" and t[2] == ("end",) and t[1][0] == "call" and t[1][1] == ("id", "setDuplicatePolicy") and len(t[1][2]) == 1):
+        raise TranslateError("Filters constructor: body `%s` not understood" % show(ctor)[:200])
+    default = pol_names[enumerator(t[1][2][0], "DuplicatePolicy", pol_names, "Filters constructor")]
+    # setDuplicatePolicy
+    sdp = beh("setDuplicatePolicy", nparams=1)
+    if sdp != nm.beh_of_text(REF_SET_POLICY, cls, False, ["policy"], "setDuplicatePolicy", KEEP):
+        raise TranslateError("setDuplicatePolicy: body `%s` not understood" % show(sdp)[:300])
+    # checkSetFilter
+    csf = beh("checkSetFilter", nparams=2)
+    ref_del = nm.beh_of_text(REF_CHECK_SET_HEAD % REF_DELETE_FIRST, cls, False, ["filter_type", "filter_param"], "checkSetFilter", KEEP)
+    ref_new = nm.beh_of_text(REF_CHECK_SET_HEAD % REF_NEW_FIRST, cls, False, ["filter_type", "filter_param"], "checkSetFilter", KEEP)
+    if csf == ref_del:
+        deletes_first = True
+    elif csf == ref_new:
         deletes_first = False
-    lvl = norm(body_after(read(repo, "celma/log/filter/detail/i_filter.hpp"), r"IFilter::isLevelFilter\s*\([^)]*\)\s*\{", "isLevelFilter"))
-    lv = re.fullmatch(r"return\s*\(\s*ft\s*==\s*FilterTypes::(\w+)\s*\)\s*\|\|\s*\(\s*ft\s*==\s*FilterTypes::(\w+)\s*\)\s*\|\|\s*"
-                      r"\(\s*ft\s*==\s*FilterTypes::(\w+)\s*\)\s*;", lvl)
-    if not lv:
-        raise TranslateError("isLevelFilter: body `%s` not understood" % lvl)
-    level_types = sorted(lv.groups())
-    ps = norm(body_after(src, r"bool\s+Filters::pass\s*\([^)]*\)\s*const\s*\{", "Filters::pass"))
-    if not re.fullmatch(r"for\s*\(\s*auto\s*&\s*it\s*:\s*mFilters\s*\)\s*\{\s*if\s*\(\s*!\s*it->passFilter\s*\(\s*msg\s*\)\s*\)\s*return\s+false\s*;\s*\}\s*return\s+true\s*;", ps):
-        raise TranslateError("Filters::pass: body `%s` not understood" % ps)
-    pl = norm(body_after(src, r"bool\s+Filters::processLevel\s*\([^)]*\)\s*const\s*\{", "Filters::processLevel"))
-    if not re.match(r"if\s*\(\s*mpLevelFilter\s*==\s*nullptr\s*\)\s*return\s+true\s*;\s*switch\s*\(\s*mpLevelFilter->filterType\s*\(\s*\)\s*\)", pl):
-        raise TranslateError("Filters::processLevel: head not understood")
-    disp = re.findall(r"case\s+detail::IFilter::FilterTypes::(\w+)\s*:\s*return\s+static_cast\s*<\s*detail::(\w+)\s*\*\s*>\s*\(\s*mpLevelFilter\s*\)\s*->\s*processLevel\s*\(\s*l\s*\)\s*;", pl)
-    if not re.search(r"default\s*:\s*throw\s+std::invalid_argument", pl):
-        raise TranslateError("Filters::processLevel: default branch not understood")
-    return resets, default, deletes_first, level_types, dict(disp), {
-        "checkSetFilter": hashlib.sha256(csf.encode()).hexdigest()[:12],
-        "Filters::pass": hashlib.sha256(ps.encode()).hexdigest()[:12],
-        "Filters::processLevel": hashlib.sha256(pl.encode()).hexdigest()[:12]}
+    else:
+        raise TranslateError("checkSetFilter: body not understood: `%s`" % show(csf)[:600])
+    # isLevelFilter
+    t = nm.beh(ix.func("IFilter", "isLevelFilter", nparams=1))
+    lt = []
+    while t[0] == "ite":
+        c = t[1]
+        if not (c[0] == "bin" and c[1] == "==" and c[2] == ("id", "$p0") and c[3][0] == "id" and c[3][1].startswith("FilterTypes::")
+                and t[2] == TRUE):
+            raise TranslateError("isLevelFilter: body `%s` not understood" % show(t)[:200])
+        lt.append(c[3][1][len("FilterTypes::"):])
+        t = t[3]
+    if t != FALSE:
+        raise TranslateError("isLevelFilter: body not understood (ends with `%s`)" % show(t)[:80])
+    level_types = sorted(set(lt))
+    # pass
+    ps = beh("pass", nparams=1)
+    if ps != nm.beh_of_text(REF_PASS, cls, True, ["msg"], "Filters::pass", KEEP):
+        raise TranslateError("Filters::pass: body `%s` not understood" % show(ps)[:300])
+    # processLevel
+    pl = beh("processLevel", nparams=1)
+    if not (pl[0] == "ite" and pl[1] == ("id", "M_level") and pl[3] == TRUE):
+        raise TranslateError("Filters::processLevel: head not understood: " + show(pl)[:200])
+    t = pl[2]
+    disp = {}
+    ft = ("call", ("member", ("id", "M_level"), "filterType"), [])
+    while t[0] == "ite":
+        c = t[1]
+        if not (c[0] == "bin" and c[1] == "==" and c[2] == ft and c[3][0] == "id" and c[3][1].startswith("FilterTypes::")):
+            raise TranslateError("Filters::processLevel: dispatch condition `%s` not understood" % show(c))
+        r = t[2]
+        ok = r[0] == "ite" and r[2] == TRUE and r[3] == FALSE and r[1][0] == "call" and r[1][2] == [("id", "$p0")] and \
+            r[1][1][0] == "member" and r[1][1][2] == "processLevel" and r[1][1][1][0] == "cast" and r[1][1][1][2] == ("id", "M_level")
+        if not ok:
+            raise TranslateError("Filters::processLevel: dispatch branch `%s` not understood" % show(r)[:200])
+        ty = r[1][1][1][1]
+        m = re.fullmatch(r"(\w+) \*", ty)
+        if not m:
+            raise TranslateError("Filters::processLevel: cast type `%s` not understood" % ty)
+        key = c[3][1][len("FilterTypes::"):]
+        if key in disp:
+            raise TranslateError("Filters::processLevel: duplicate dispatch for %s" % key)
+        disp[key] = m.group(1)
+        t = t[3]
+    if t != ("throw", "std::invalid_argument"):
+        raise TranslateError("Filters::processLevel: default branch not understood: " + show(t)[:120])
+    return resets, default, deletes_first, level_types, disp, {
+        "checkSetFilter": digest(csf), "Filters::pass": digest(ps), "Filters::processLevel": digest(pl)}
 
 
-def logging_cpp(repo):
-    src = read(repo, "library/log/logging.cpp")
-    fc = norm(body_after(src, r"id_t\s+Logging::findCreateLog\s*\([^)]*\)\s*\{", "findCreateLog"))
-    m = re.search(r"if\s*\(\s*mNextLogId\s*==\s*static_cast\s*<\s*id_t\s*>\s*\(\s*\(\s*0x1\s*<<\s*(\d+)\s*\)\s*\)\s*\)\s*throw\s+CELMA_RuntimeError", fc)
-    if not m:
-        raise TranslateError("findCreateLog: limit check not understood")
-    if not re.search(r"mNextLogId\s*<<=\s*1\s*;", fc):
+def logging_cpp(ix, nm):
+    cls = "Logging"
+    nxt = data_members(ix, nm, cls, lambda ty: ty in ("unsigned int", "unsigned", "id_t", "uint32_t", "std::uint32_t"),
+                       "next-id member not found", static=False)
+    logs = data_members(ix, nm, cls, lambda ty: re.fullmatch(r"std::vector < LogData >", ty) is not None,
+                        "log container member not found", static=False)
+    roles = {nxt.name: "M_next", logs.name: "M_logs"}
+    f = ix.func(cls, "findCreateLog", nparams=1)
+    if any(n == nxt.name for g in ix.find_funcs(cls, cls) for n, _ in g.inits):
+        raise TranslateError("Logging: next-id member initialised in a constructor: not understood")
+    if nxt.init is None:
+        raise TranslateError("Logging::%s initialiser not understood" % nxt.name)
+    first = nm.const_eval(nm.nx(nm.parse_expr_tokens(nxt.init, "first log id"), {}, _ctx(nm, f)), "first log id")
+    fc = nm.beh(f, members=roles)
+    M = ("id", "M_next")
+    limit = None
+    for x in walk(fc):
+        if isinstance(x, tuple) and len(x) == 4 and x[0] == "ite" and x[1][0] == "bin" and x[1][1] == "==" and x[1][2] == M \
+                and x[1][3][0] == "num" and x[2] == ("throw", "CELMA_RuntimeError"):
+            if limit is not None and limit != x[1][3][1]:
+                raise TranslateError("findCreateLog: two different limit checks")
+            limit = x[1][3][1]
+    if limit is None:
+        raise TranslateError("findCreateLog: limit check not understood: " + show(fc)[:300])
+    if limit <= 0 or limit & (limit - 1):
+        raise TranslateError("findCreateLog: limit %d is not a single bit" % limit)
+    shift = limit.bit_length() - 1
+    if shift >= 32:
+        raise TranslateError("findCreateLog: limit 0x1 << %d does not fit id_t" % shift)
+    steps = [("assign", "<<=", M, ("num", 1)), ("assign", "=", M, ("bin", "<<", M, ("num", 1))), ("assign", "*=", M, ("num", 2)),
+             ("assign", "=", M, ("bin", "*", M, ("num", 2))), ("assign", "=", M, ("bin", "*", ("num", 2), M))]
+    if not any(isinstance(x, tuple) and len(x) == 3 and x[0] == "seq" and x[1] in steps for x in walk(fc)):
         raise TranslateError("findCreateLog: id shift not understood")
-    hdr = read(repo, "celma/log/logging.hpp")
-    first = re.search(r"id_t\s+mNextLogId\s*=\s*(0x[0-9a-fA-F]+|\d+)\s*;", hdr)
-    if not first:
-        raise TranslateError("Logging::mNextLogId initialiser not understood")
-    hashes = {"findCreateLog": hashlib.sha256(fc.encode()).hexdigest()[:12]}
-    for fn, rx in (("Logging::log(id)", r"void\s+Logging::log\s*\(\s*id_t[^)]*\)\s*\{"),
-                   ("Logging::log(name)", r"void\s+Logging::log\s*\(\s*const\s+std::string[^)]*\)\s*\{"),
-                   ("Logging::getLog(id)", r"Logging::getLog\s*\(\s*id_t[^)]*\)\s*\{")):
-        hashes[fn] = hashlib.sha256(norm(body_after(src, rx, fn)).encode()).hexdigest()[:12]
-    lg = read(repo, "library/log/detail/log.cpp")
-    hashes["Log::message"] = hashlib.sha256(norm(body_after(lg, r"void\s+Log::message\s*\([^)]*\)\s*const\s*\{", "Log::message")).encode()).hexdigest()[:12]
-    ld = read(repo, "library/log/detail/i_log_dest.cpp")
-    hashes["ILogDest::handleMessage"] = hashlib.sha256(norm(body_after(ld, r"void\s+ILogDest::handleMessage\s*\([^)]*\)\s*\{", "handleMessage")).encode()).hexdigest()[:12]
-    hf = read(repo, "celma/log/detail/helper_function.hpp")
-    hashes["discard_by_level"] = hashlib.sha256(norm(body_after(hf, r"bool\s+discard_by_level\s*\([^)]*\)\s*\{", "discard_by_level")).encode()).hexdigest()[:12]
-    if int(m.group(1)) >= 32:
-        raise TranslateError("findCreateLog: limit 0x1 << %s does not fit id_t" % m.group(1))
-    return int(m.group(1)), int(first.group(1), 0), hashes
+    hashes = {"findCreateLog": digest(fc)}
+
+    def info(label, fn):
+        try:
+            hashes[label] = digest(fn())
+        except TranslateError:
+            hashes[label] = "not-normalised"
+
+    info("Logging::log(id)", lambda: nm.beh(ix.func(cls, "log", nparams=2, first_param="id_t"), members=roles))
+    info("Logging::log(name)", lambda: nm.beh(ix.func(cls, "log", nparams=2, first_param="string"), members=roles))
+    info("Logging::getLog(id)", lambda: nm.beh(ix.func(cls, "getLog", nparams=1, first_param="id_t"), members=roles))
+    info("Log::message", lambda: nm.beh(ix.func("Log", "message", nparams=1)))
+    info("ILogDest::handleMessage", lambda: nm.beh(ix.func("ILogDest", "handleMessage", nparams=1)))
+    info("discard_by_level", lambda: nm.beh(ix.func(None, "discard_by_level", nparams=2)))
+    return shift, first, hashes
+
+
+def class_text_table(repo):
+    """{index: display text} of the log classes plus 'n' = number of classes (used by the plugin's reference)"""
+    ix, nm = load(repo)
+    classes = enum_names(ix, "LogClass")
+    cases, _ = text_switch(ix, nm, "logClass2text", "LogClass", classes)
+    out = {i: t for i, t in cases if i != 0}
+    out["n"] = len(classes)
+    return out
 
 
 def lstr(s):
@@ -351,35 +567,36 @@ def llist(items):
 
 
 def generate(repo):
-    defs = read(repo, "celma/log/detail/log_defs.hpp")
-    classes = enum_of(defs, "LogClass")
-    levels = enum_of(defs, "LogLevel")
-    ccases, cdef = text_switch(defs, "logClass2text", "LogClass", classes)
-    lcases, ldef = text_switch(defs, "logLevel2text", "LogLevel", levels)
-    cloop = text_loop(defs, "text2logClass", "LogClass", classes)
-    lloop = text_loop(defs, "text2logLevel", "LogLevel", levels)
+    ix, nm = load(repo)
+    classes = enum_names(ix, "LogClass")
+    levels = enum_names(ix, "LogLevel")
+    ccases, cdef = text_switch(ix, nm, "logClass2text", "LogClass", classes)
+    lcases, ldef = text_switch(ix, nm, "logLevel2text", "LogLevel", levels)
+    cloop = text_loop(ix, nm, "text2logClass", "LogClass", classes)
+    lloop = text_loop(ix, nm, "text2logLevel", "LogLevel", levels)
     if cloop["via"] != "logClass2text" or lloop["via"] != "logLevel2text":
         raise TranslateError("text2log*: unexpected text function")
-    bsize, bexpr, bchecked = bitset_size(repo, classes)
-    sep, rejected, empty_rejected = classes_ctor(repo)
+    bsize, bexpr, bchecked, bmember = bitset_size(ix, nm, classes)
+    sep, rejected, empty_rejected = classes_ctor(ix, nm, bmember)
     if rejected is not None and rejected not in classes:
         raise TranslateError("LogFilterClasses constructor: unknown enumerator " + rejected)
-    d = "celma/log/filter/detail/"
-    mx = level_filter(repo, d + "log_filter_max_level.hpp", "LogFilterMaxLevel", "mMaxLevel")
-    mn = level_filter(repo, d + "log_filter_min_level.hpp", "LogFilterMinLevel", "mMinLevel")
-    lv = level_filter(repo, d + "log_filter_level.hpp", "LogFilterLevel", "mLevel")
+    if sep in "'\\" or not (32 <= ord(sep) < 127):
+        raise TranslateError("LogFilterClasses constructor: separator %r not supported" % sep)
+    mx = level_filter(ix, nm, "LogFilterMaxLevel")
+    mn = level_filter(ix, nm, "LogFilterMinLevel")
+    lv = level_filter(ix, nm, "LogFilterLevel")
     if (mx[2], mn[2], lv[2]) != ("maxLevel", "minLevel", "level"):
         raise TranslateError("level filter classes register unexpected filter types %s" % ((mx[2], mn[2], lv[2]),))
-    pol_names, pol = policies(repo)
+    pol_names, pol = policies(ix, nm)
     for need in ("ignore", "exception", "replace"):
         if need not in pol_names:
             raise TranslateError("DuplicatePolicy::%s missing" % need)
-    resets, pdefault, deletes_first, level_types, dispatch, fh = filters_cpp(repo, pol_names)
+    resets, pdefault, deletes_first, level_types, dispatch, fh = filters_cpp(ix, nm, pol_names)
     if level_types != sorted(["maxLevel", "minLevel", "level"]):
         raise TranslateError("isLevelFilter names %s" % level_types)
     if dispatch != {"maxLevel": "LogFilterMaxLevel", "minLevel": "LogFilterMinLevel", "level": "LogFilterLevel"}:
         raise TranslateError("Filters::processLevel dispatch %s not understood" % dispatch)
-    shift, first_id, lh = logging_cpp(repo)
+    shift, first_id, lh = logging_cpp(ix, nm)
 
     L = []
     w = L.append
@@ -434,7 +651,7 @@ def generate(repo):
         w("def text2%sNoCase : Bool := %s" % (nm, "true" if lp["nocase"] else "false"))
         w("def text2%sFallback : Nat := %d" % (nm, lp["fallback"]))
     w("")
-    w("/-- `std::bitset< %s>  mClassSelection` -/" % bexpr)
+    w("/-- size of the class set of LogFilterClasses: `std::bitset< N>` with N = `%s` -/" % bexpr)
     w("def classBitsetSize : Nat := %d" % bsize)
     w("/-- does `LogFilterClasses::pass` use the range-checked `test()` (true) or the unchecked `operator[]` (false) -/")
     w("def classPassChecked : Bool := %s" % ("true" if bchecked else "false"))
